@@ -146,7 +146,16 @@ def _calculate_impedances(
         indices = delete(indices, limit_indices)
 
     if indices.size > 0:
-        Z[indices] = func(f[indices])
+        try:
+            Z[indices] = func(f[indices])
+        except OverflowError as err:
+            raise InfiniteImpedance(
+                f"Encountered a numerical overflow while calculating impedances: {err}"
+            )
+        except ZeroDivisionError as err:
+            raise NotANumberImpedance(
+                f"Encountered a division by zero while calculating impedances: {err}"
+            )
 
     if isinf(Z).any():
         raise InfiniteImpedance("Encountered an infinite impedance")
